@@ -118,6 +118,7 @@ static std::string handle(const std::string& verb, const std::vector<std::string
         else if (verb == "ctl3") { return vh::verb_ctl3(f); }
         else if (verb == "iso") { return vh::verb_iso(f); }
         else if (verb == "pbo") { return vh::verb_pbo(f); }
+        else if (verb == "pbo2") { return vh::verb_pbo2(f); }
         else if (verb == "vfs") { return vh::verb_vfs(f); }
         else if (verb == "front") { return vh::verb_front(f); }
         else if (verb == "pp") { return vh::verb_pp(f); }
